@@ -9,7 +9,8 @@ RULE = ("PROVED part: location helpers + kernel_shift_equivariant, tied function
         "rules over repository / conformance / generated modules: every violation has 1 <= row <= #lines, 1 <= col <= "
         "len(line)+1 (code points), end >= start, text == the reported line; k in {1,3,10,100} blank lines prepended move every "
         "row by k and change nothing else (rules excluded by definition: file-length, opa-fmt). non-trivial = module with >= 1 "
-        "located violation; distinct = distinct module")
+        "located violation; distinct = distinct module"
+        ' Also: the LSP range of every located violation through the real getRangeForViolation vs Location.lspRange (ordered, inside the file); the generated corpus contains compiler-rejected shapes and comment placements.')
 TRUSTED = ["OPA parser locations (code points, 1-based) and roast's end computation are Env side"]
 ASSUMPTIONS = ["each rule passes a well-formed node to result.location / ranged_* (sampled)", "Env.RowEquivariant (sampled)"]
 
